@@ -567,10 +567,7 @@ func checkC10(c *Ctx, r *Report) {
 			if b, ok := constBool(v); ok {
 				if b && fnN == "InterceptSecured" {
 					// constant allow only for outbound
-					w, n := (&Cut{Fn: f, Target: isInstr(ret), EdgeCut: edgeCmp(func(bo *ssa.BinOp) bool {
-						k, ok := constInt(bo.Y)
-						return ok && k == constIntObj(c, "core/network", "DirOutbound") && bo.Op == token.EQL && isParamVar(c, bo.X, "dir")
-					}, true)}).Run(c)
+					w, n := (&Cut{Fn: f, Target: isInstr(ret), EdgeCut: edgeIntBound(func(v ssa.Value) bool { return isParamVar(c, v, "dir") }, constIntObj(c, "core/network", "DirOutbound"), constIntObj(c, "core/network", "DirOutbound"), false)}).Run(c)
 					r7.Check(w == "", "(*"+gT+").InterceptSecured: constant allow only for outbound", instrPos(ret), n+1, "", "inbound connections are allowed without consulting blockedPeers", w)
 				} else if b {
 					r7.Fail("(*"+gT+")."+fnN+": constant allow", instrPos(ret), "blockedPeers is not consulted", "")
